@@ -15,6 +15,7 @@ import (
 	"fmt"
 	"io"
 	"math/big"
+	"reflect"
 	"strings"
 	"testing"
 
@@ -110,6 +111,7 @@ func roundTrip(r *vcore.Run, what, label string, enc encoder, dst io.ReaderFrom,
 	}
 	r.Count("roundtrip."+what+"."+enc.name, 1)
 	r.SampleClass(what+"/"+enc.name, rep)
+	fragmentedRead(r, what, enc, buf.Bytes(), garbage, dst, unsafeRead != nil, rep)
 	if reenc != nil {
 		var b2 bytes.Buffer
 		e2 := reenc()
@@ -128,6 +130,111 @@ func roundTrip(r *vcore.Run, what, label string, enc encoder, dst io.ReaderFrom,
 		}
 	}
 	return true
+}
+
+// fragReader delivers the stream in pieces of 1..7 bytes, as a pipe or a socket may: an
+// io.Reader is allowed to return fewer bytes than asked for.  It is not an io.ByteReader.
+type fragReader struct {
+	data []byte
+	pos  int
+	k    int
+}
+
+func (f *fragReader) Read(p []byte) (int, error) {
+	if f.pos >= len(f.data) {
+		return 0, io.EOF
+	}
+	if len(p) == 0 {
+		return 0, nil
+	}
+	f.k++
+	n := []int{1, 3, 2, 7, 1, 5, 4, 6}[f.k%8]
+	if len(f.data) > 32<<10 { // large artifacts: mostly larger pieces, or the run is dominated by Read calls
+		n = []int{1, 509, 7, 4093, 31, 1021, 2, 257}[f.k%8]
+	}
+	if n > len(p) {
+		n = len(p)
+	}
+	if n > len(f.data)-f.pos {
+		n = len(f.data) - f.pos
+	}
+	copy(p, f.data[f.pos:f.pos+n])
+	f.pos += n
+	return n, nil
+}
+
+// fragmentedRead decodes the same encoding once more, into a fresh zero value of the
+// destination's type, from a stream that arrives in small pieces: how the transport cuts
+// the bytes must not change what is decoded, reported or consumed.
+func fragmentedRead(r *vcore.Run, what string, enc encoder, data, garbage []byte, dst io.ReaderFrom, unsafe bool, rep map[string]any) {
+	if len(data) > 1<<20 {
+		r.Count("fragmented.skipped-large", 1)
+		return
+	}
+	rt := reflect.TypeOf(dst)
+	if rt.Kind() != reflect.Pointer || rt.Elem().Kind() != reflect.Struct {
+		r.Count("fragmented.skipped-not-a-struct-pointer", 1)
+		return
+	}
+	ow, ok := dst.(io.WriterTo)
+	if !ok {
+		r.Count("fragmented.skipped-no-WriteTo", 1)
+		return
+	}
+	fresh := reflect.New(rt.Elem()).Interface().(io.ReaderFrom)
+	// objects that need more than their zero value to be decoded into (a witness needs its field)
+	// are recognised by decoding the unfragmented bytes into a zero value first
+	{
+		probe := reflect.New(rt.Elem()).Interface().(io.ReaderFrom)
+		var perr error
+		pan, _ := vcore.Catch(func() {
+			if unsafe {
+				_, perr = probe.(gnarkio.UnsafeReaderFrom).UnsafeReadFrom(bytes.NewReader(data))
+			} else {
+				_, perr = probe.ReadFrom(bytes.NewReader(data))
+			}
+		})
+		if pan != nil || perr != nil {
+			r.Count("fragmented.skipped-zero-value-not-decodable", 1)
+			return
+		}
+	}
+	fr := &fragReader{data: append(append([]byte{}, data...), garbage...)}
+	var m int64
+	var rerr error
+	pan, stack := vcore.Catch(func() {
+		if unsafe {
+			m, rerr = fresh.(gnarkio.UnsafeReaderFrom).UnsafeReadFrom(fr)
+		} else {
+			m, rerr = fresh.ReadFrom(fr)
+		}
+	})
+	r.Eval("fragmented|"+what+"|"+enc.name+"|"+fmt.Sprint(rep["case"]), true)
+	r.Count("fragmented.decodes", 1)
+	if pan != nil {
+		r.Violation("fragmented-read-panic/"+what+"/"+enc.name, fmt.Sprintf("%v\n%s", pan, stack), rep)
+		return
+	}
+	if rerr != nil {
+		r.Violation("fragmented-read-failed/"+what+"/"+enc.name, "the encoding decodes from a bytes.Reader but not from a reader that returns 1..7 bytes per Read: "+rerr.Error(), rep)
+		return
+	}
+	if m != int64(len(data)) || fr.pos != len(data) {
+		r.Violation("fragmented-read-count-wrong/"+what+"/"+enc.name, fmt.Sprintf("from a fragmented stream the decoder reported %d and consumed %d bytes for an encoding of %d bytes", m, fr.pos, len(data)), rep)
+	}
+	var b1, b2 bytes.Buffer
+	if _, err := ow.WriteTo(&b1); err != nil {
+		return
+	}
+	if _, err := fresh.(io.WriterTo).WriteTo(&b2); err != nil {
+		r.Violation("fragmented-re-encode-failed/"+what+"/"+enc.name, err.Error(), rep)
+		return
+	}
+	if !bytes.Equal(b1.Bytes(), b2.Bytes()) {
+		r.Violation("fragmented-read-differs/"+what+"/"+enc.name, "the object decoded from a fragmented stream differs from the one decoded from the same bytes in one piece", rep)
+		return
+	}
+	r.Count("fragmented.identical", 1)
 }
 
 func solHash(sol any) string {
